@@ -178,7 +178,8 @@ fn setup(path: Path, child: Child, layout: u8) -> Vec<Op> {
     ops
 }
 
-fn act(path: Path, child: Child) -> Vec<Op> {
+fn act(path: Path, child: Child, act_cb: CbKind) -> Vec<Op> {
+    let cbk = |body: Vec<MOp>| Op::Cb { a: 0, kind: act_cb, body };
     let mut ops = Vec::new();
     let mut body: Vec<MOp> = Vec::new();
     let cid = if child == Child::Fresh { F } else { C };
@@ -194,7 +195,7 @@ fn act(path: Path, child: Child) -> Vec<Op> {
             } else {
                 body.push(MOp::SetS { p: Ref::Obj(P), slot, c: Some(cid), mode, thin: false });
             }
-            ops.push(cb(body));
+            ops.push(cbk(body));
         }
         Path::Root { cb: k } => {
             if strong_src_upgrade {
@@ -209,7 +210,7 @@ fn act(path: Path, child: Child) -> Vec<Op> {
                 body.push(MOp::Upgrade { holder: Ref::Obj(H), wslot: 0, store: None });
             }
             body.push(MOp::Stash { set: P, target: cid, h: 1 });
-            ops.push(cb(body));
+            ops.push(cbk(body));
         }
         Path::MultiAdopt => {
             if strong_src_upgrade {
@@ -217,18 +218,18 @@ fn act(path: Path, child: Child) -> Vec<Op> {
             }
             body.push(alloc(F + 5, Kind::Leaf, 0, vec![]));
             body.push(MOp::MultiAdopt { p: P, c: [cid, F + 5] });
-            ops.push(cb(body));
+            ops.push(cbk(body));
         }
         Path::FwdMulti => {
             if strong_src_upgrade {
                 body.push(MOp::Upgrade { holder: Ref::Obj(H), wslot: 0, store: None });
             }
             body.push(MOp::FwdMulti { c: cid, p: [P, P2] });
-            ops.push(cb(body));
+            ops.push(cbk(body));
         }
         Path::WObj { slot, mode, .. } => {
             body.push(MOp::SetW { p: Ref::Obj(P), slot, c: Some(cid), mode });
-            ops.push(cb(body));
+            ops.push(cbk(body));
         }
         Path::WRoot { cb: k } => {
             body.push(MOp::SetW { p: Ref::Root, slot: 2, c: Some(cid), mode: 0 });
@@ -329,12 +330,18 @@ pub fn run_scenario(ops: &[Op]) -> HistResult {
 
 /// C06 (+ C05 weak table, C01 sweep-list scenarios): the barrier path matrix
 fn matrix_c06(args: &Args, agg: &mut Agg, prop: &str) -> (u64, u64) {
-    let shard = args.num("shard", 0);
-    let nshards = args.num("nshards", 1);
-    let sample = args.num("sample", 1); // run every sample-th scenario (Miri)
     let seed = args.num("seed", 0);
+    // --shardmult M: the table is cut into nshards*M slices and the seed picks which M-th of them
+    // this run explores (slow flavours explore a different slice for every seed)
+    let mult = args.num("shardmult", 1).max(1);
+    let shard = args.num("shard", 0) + args.num("nshards", 1) * (seed % mult);
+    let nshards = args.num("nshards", 1) * mult;
+    let sample = args.num("sample", 1); // run every sample-th scenario (Miri)
     let paths = all_paths();
     let mut idx: u64 = 0;
+    let mut group: u64 = 0;
+    // --groupshard: shards own whole (path, child, layout) groups and sample inside them
+    let group_shard = args.flag("groupshard");
     let mut skipped = 0u64;
     let mut cells = 0u64;
     for (pi, path) in paths.iter().enumerate() {
@@ -348,6 +355,15 @@ fn matrix_c06(args: &Args, agg: &mut Agg, prop: &str) -> (u64, u64) {
                 continue;
             }
             for layout in 0..6u8 {
+                group += 1;
+                if let Some(only) = args.m.get("only") {
+                    if !only.starts_with(&format!("{}|{:?}|L{}|", path.name(), child, layout)) {
+                        continue;
+                    }
+                }
+                if group_shard && group % nshards != shard {
+                    continue;
+                }
                 let mut pre = setup(*path, child, layout);
                 if child == Child::Shell {
                     // the audit in setup already destructed C (only weakly held); keep it a shell
@@ -355,14 +371,20 @@ fn matrix_c06(args: &Args, agg: &mut Agg, prop: &str) -> (u64, u64) {
                 let total = cycle_steps(&pre);
                 for k in 0..=total {
                     for d in DRAINS {
+                      for act_cb in [CbKind::Mutate, CbKind::MutateRoot] {
+                        // stores into a non-root object made inside a root-mutating callback (the
+                        // root barrier has just been raised); root paths carry their own kind
+                        if act_cb != CbKind::Mutate && (matches!(path, Path::Root { .. } | Path::WRoot { .. }) || d != Drain::Finish && d != Drain::StepsWithMutation) {
+                            continue;
+                        }
                         idx += 1;
-                        if idx % nshards != shard && !args.flag("only") {
+                        if !group_shard && idx % nshards != shard && !args.flag("only") {
                             continue;
                         }
-                        if sample > 1 && (idx / nshards + seed) % sample != 0 {
+                        if sample > 1 && !args.flag("only") && (if group_shard { idx.wrapping_mul(2654435761).wrapping_add(seed) } else { idx / nshards + seed }) % sample != 0 {
                             continue;
                         }
-                        let name = format!("{}|{:?}|L{}|k{}|{:?}", path.name(), child, layout, k, d);
+                        let name = format!("{}|{:?}|L{}|k{}|{:?}|{:?}", path.name(), child, layout, k, d, act_cb);
                         if let Some(only) = args.m.get("only") {
                             if &name != only {
                                 continue;
@@ -372,7 +394,7 @@ fn matrix_c06(args: &Args, agg: &mut Agg, prop: &str) -> (u64, u64) {
                         for _ in 0..k {
                             ops.push(step());
                         }
-                        ops.extend(act(*path, child));
+                        ops.extend(act(*path, child, act_cb));
                         ops.extend(drain(d, path.is_weak()));
                         ops.extend(tail(*path));
                         let r = run_scenario(&ops);
@@ -391,6 +413,7 @@ fn matrix_c06(args: &Args, agg: &mut Agg, prop: &str) -> (u64, u64) {
                         if agg.viols.len() >= 5 {
                             return (cells, skipped);
                         }
+                      }
                     }
                 }
                 pre.clear();
@@ -411,6 +434,25 @@ pub fn mode_scen(args: &Args) {
             let (cells, skipped) = matrix_c06(args, &mut agg, &prop);
             extra.put("cells", cells);
             extra.put("cells_with_skipped_op", skipped);
+        }
+        "c08" | "c04" | "c03" | "c07" => {
+            let tname: &'static str = match table.as_str() {
+                "c08" => "c08",
+                "c04" => "c04",
+                "c03" => "c03",
+                _ => "c07",
+            };
+            let cells = {
+                let mut t = crate::scen2::Tab { args, agg: &mut agg, prop: prop.clone(), table: tname, idx: 0, cells: 0 };
+                match tname {
+                    "c08" => crate::scen2::table_c08(&mut t),
+                    "c04" => crate::scen2::table_c04(&mut t),
+                    "c03" => crate::scen2::table_c03(&mut t),
+                    _ => crate::scen2::table_c07(&mut t),
+                }
+                t.cells
+            };
+            extra.put("cells", cells);
         }
         t => {
             eprintln!("unknown table {}", t);
